@@ -318,3 +318,153 @@ pub fn random_svg_spec(rng: &mut Rng, size: usize, with_image: bool) -> Spec {
     }
     s
 }
+
+/// One setter call (for call-history workloads).
+#[derive(Clone, Debug, PartialEq)]
+pub enum ROp {
+    Margin(usize),
+    ModuleColor(Colour),
+    Background(Colour),
+    Layer(usize, Option<Colour>),
+    Image(String),
+    IbgShape(usize),
+    IbgColor(Colour),
+    ImageSize(f64),
+    ImageGap(f64),
+    ImagePos(f64, f64),
+    FitW(u32),
+    FitH(u32),
+}
+
+impl ROp {
+    pub fn kind(&self) -> usize {
+        match self {
+            ROp::Margin(_) => 0,
+            ROp::ModuleColor(_) => 1,
+            ROp::Background(_) => 2,
+            ROp::Layer(..) => 3,
+            ROp::Image(_) => 4,
+            ROp::IbgShape(_) => 5,
+            ROp::IbgColor(_) => 6,
+            ROp::ImageSize(_) => 7,
+            ROp::ImageGap(_) => 8,
+            ROp::ImagePos(..) => 9,
+            ROp::FitW(_) => 10,
+            ROp::FitH(_) => 11,
+        }
+    }
+}
+
+pub fn apply_op<B: Builder>(b: &mut B, op: &ROp) {
+    let mut s = Spec::default();
+    match op {
+        ROp::Margin(m) => s.margin = Some(*m),
+        ROp::ModuleColor(c) => s.module_color = Some(c.clone()),
+        ROp::Background(c) => s.background = Some(c.clone()),
+        ROp::Layer(k, c) => s.layers.push((*k, c.clone())),
+        ROp::Image(i) => s.image = Some(i.clone()),
+        ROp::IbgShape(k) => s.image_bg_shape = Some(*k),
+        ROp::IbgColor(c) => s.image_bg_color = Some(c.clone()),
+        ROp::ImageSize(x) => s.image_size = Some(*x),
+        ROp::ImageGap(x) => s.image_gap = Some(*x),
+        ROp::ImagePos(x, y) => s.image_position = Some((*x, *y)),
+        ROp::FitW(_) | ROp::FitH(_) => {}
+    }
+    apply(b, &s);
+}
+
+pub fn apply_image_op(b: &mut ImageBuilder, op: &ROp) {
+    match op {
+        ROp::FitW(w) => {
+            b.fit_width(*w);
+        }
+        ROp::FitH(h) => {
+            b.fit_height(*h);
+        }
+        other => apply_op(b, other),
+    }
+}
+
+impl Spec {
+    /// canonical setter calls that produce this spec on a default builder
+    pub fn ops(&self) -> Vec<ROp> {
+        let mut v = Vec::new();
+        if let Some(m) = self.margin {
+            v.push(ROp::Margin(m));
+        }
+        if let Some(c) = &self.module_color {
+            v.push(ROp::ModuleColor(c.clone()));
+        }
+        if let Some(c) = &self.background {
+            v.push(ROp::Background(c.clone()));
+        }
+        for (k, c) in &self.layers {
+            v.push(ROp::Layer(*k, c.clone()));
+        }
+        if let Some(i) = &self.image {
+            v.push(ROp::Image(i.clone()));
+        }
+        if let Some(k) = self.image_bg_shape {
+            v.push(ROp::IbgShape(k));
+        }
+        if let Some(c) = &self.image_bg_color {
+            v.push(ROp::IbgColor(c.clone()));
+        }
+        if let Some(x) = self.image_size {
+            v.push(ROp::ImageSize(x));
+        }
+        if let Some(x) = self.image_gap {
+            v.push(ROp::ImageGap(x));
+        }
+        if let Some((x, y)) = self.image_position {
+            v.push(ROp::ImagePos(x, y));
+        }
+        if let Some(w) = self.fit_width {
+            v.push(ROp::FitW(w));
+        }
+        if let Some(h) = self.fit_height {
+            v.push(ROp::FitH(h));
+        }
+        v
+    }
+
+    /// A noisy call history with the same final option values: scalar setters in random order,
+    /// each possibly preceded by decoy calls of the same setter with other values; shape calls
+    /// keep their relative order (they accumulate).
+    pub fn noisy_history(&self, rng: &mut Rng) -> Vec<ROp> {
+        let canon = self.ops();
+        let layers: Vec<ROp> = canon.iter().filter(|o| o.kind() == 3).cloned().collect();
+        let mut scalars: Vec<ROp> = canon.iter().filter(|o| o.kind() != 3).cloned().collect();
+        rng.shuffle(&mut scalars);
+        let mut hist: Vec<ROp> = Vec::new();
+        for op in scalars {
+            let decoys = rng.below(3);
+            for _ in 0..decoys {
+                let d = match &op {
+                    ROp::Margin(_) => ROp::Margin(rng.below(20)),
+                    ROp::ModuleColor(_) => ROp::ModuleColor(random_colour(rng, true)),
+                    ROp::Background(_) => ROp::Background(random_colour(rng, true)),
+                    ROp::Image(_) => ROp::Image(random_image_string(rng)),
+                    ROp::IbgShape(_) => ROp::IbgShape(rng.below(3)),
+                    ROp::IbgColor(_) => ROp::IbgColor(random_colour(rng, false)),
+                    ROp::ImageSize(_) => ROp::ImageSize(rng.f64() * 10.0),
+                    ROp::ImageGap(_) => ROp::ImageGap(rng.f64() * 3.0),
+                    ROp::ImagePos(..) => ROp::ImagePos(rng.f64() * 30.0, rng.f64() * 30.0),
+                    ROp::FitW(_) => ROp::FitW(50 + rng.below(300) as u32),
+                    ROp::FitH(_) => ROp::FitH(50 + rng.below(300) as u32),
+                    ROp::Layer(..) => unreachable!(),
+                };
+                let at = rng.below(hist.len() + 1);
+                hist.insert(at, d);
+            }
+            hist.push(op);
+        }
+        // weave the layers in, keeping their order
+        let mut pos: Vec<usize> = (0..layers.len()).map(|_| rng.below(hist.len() + 1)).collect();
+        pos.sort();
+        for (i, (l, p)) in layers.into_iter().zip(pos).enumerate() {
+            hist.insert(p + i, l);
+        }
+        hist
+    }
+}
